@@ -27,7 +27,7 @@ ASSUMPTIONS = ['order between the invariant blocks of different active states is
                'conditions are side-effect free apart from the probe']
 KINDS = ['state.pre', 'state.post', 'state.inv', 'trans.pre', 'trans.inv_before', 'trans.post', 'trans.inv_after',
          'state.inv_on_none_step']
-REQUIRED_COUNTERS = ['empty_context_cases', 'runs_with_second_live_interpreter', 'text_collision_steps', 'grammar_steps_checked', 'faults_injected', 'old_values_checked'] + ['fault_' + k for k in KINDS]
+REQUIRED_COUNTERS = ['environment_cases', 'old_readings_after_environment_change', 'empty_context_cases', 'runs_with_second_live_interpreter', 'text_collision_steps', 'grammar_steps_checked', 'faults_injected', 'old_values_checked'] + ['fault_' + k for k in KINDS]
 TIERS = dict(quick=dict(steps=25, faults=25, gen=dict(max_states=10, max_depth=4, max_trans=12)),
              thorough=dict(steps=45, faults=400, gen=dict(max_states=16, max_depth=5, max_trans=20)))
 
@@ -299,9 +299,101 @@ def empty_context_case(acc, rnd):
         acc.violation('C08:true-condition-raised', 'scenario did not run to its end', dict(context=dict(it.context)))
 
 
+ENV_LOG = []
+
+
+def K2(cid, old_n, cur_n):
+    ENV_LOG.append((cid, old_n, cur_n))
+    return True
+
+
+OLD_FORMS = ('__old__.tank.n', 'next(__old__.tank.n for _ in (1,))', '(lambda: __old__.tank.n)()', '[__old__.tank.n for _ in (1,)][0]',
+             'max(o.tank.n for o in [__old__])')
+
+
+def env_case(acc, rnd):
+    """The environment owns an object of the context (docs: an `initial_context` value shared with the application) and
+    changes it between the calls; many states and transitions have no code at all.  What __old__ shows is the context
+    as it was when the state was entered / the transition started - whoever changed it since, and however the condition
+    gets at __old__ (directly, inside a generator expression, a comprehension, a lambda)."""
+    from sismic.model import BasicState, CompoundState, Statechart, Transition
+    del ENV_LOG[:]
+    sc = Statechart('env')
+    sc.add_state(CompoundState('root', initial='a'), None)
+    names = ['a', 'b', 'c']
+
+    def cond(cid):
+        return 'K2(%r, %s, tank.n)' % (cid, rnd.choice(OLD_FORMS))
+    for n in names:
+        st = BasicState(n, on_entry=rnd.choice((None, None, 'w = 1')), on_exit=rnd.choice((None, None, 'w = 2')))
+        for j in range(rnd.randint(0, 2)):
+            st.invariants.append(cond('%s/inv%d' % (n, j)))
+        if rnd.random() < 0.6:
+            st.postconditions.append(cond('%s/post' % n))
+        sc.add_state(st, 'root')
+    tn = 0
+    for n in names:
+        for ev in ('e0', 'e1'):
+            if rnd.random() < 0.75:
+                t = Transition(n, rnd.choice(names + [None]), event=ev, action=rnd.choice((None, None, 'z = 1')))
+                if rnd.random() < 0.5:
+                    t.postconditions.append(cond('t%d/post' % tn))
+                if rnd.random() < 0.4:
+                    t.invariants.append(cond('t%d/tinv' % tn))
+                tn += 1
+                sc.add_transition(t)
+    tank = Box()
+    it = Interpreter(sc, initial_context=dict(tank=tank, K2=K2))
+    T = 0
+    entered_at = {}
+    acc.count('environment_cases')
+    history = []
+    for i in range(rnd.randint(4, 12)):
+        if rnd.random() < 0.6:
+            T += rnd.randint(1, 3)
+            tank.n = T              # the application changes its own object between two calls
+            history.append(('tank.n', T))
+        ev = rnd.choice(('e0', 'e1', None))
+        if ev:
+            it.queue(ev)
+        history.append(('step', ev))
+        del ENV_LOG[:]
+        before = dict(entered_at)
+        wit = dict(history=list(history), chart=[(n, sc.state_for(n).on_entry, sc.state_for(n).on_exit, list(sc.state_for(n).invariants),
+                                                  list(sc.state_for(n).postconditions)) for n in names],
+                   transitions=[(t.source, t.target, t.event, t.action, list(t.postconditions), list(t.invariants)) for t in sc.transitions])
+        try:
+            step = it.execute_once()
+        except Exception as e:      # noqa
+            acc.violation('C08:true-condition-raised', 'conditions that only record what __old__ shows raised %s: %s'
+                          % (type(e).__name__, str(e)[:300].replace('\n', ' ')), wit)
+            return
+        if step is not None:
+            for ms in step.steps:
+                for s_ in ms.entered_states:
+                    entered_at[s_] = T
+        for cid, old_n, cur_n in ENV_LOG:
+            owner, kind = cid.split('/')
+            if kind.startswith('inv'):
+                want = entered_at.get(owner)
+            elif kind == 'post' and owner in names:
+                want = before.get(owner)
+            else:
+                want = T            # a transition: started in this call
+            acc.count('old_readings_after_environment_change' if want != T else 'old_readings_checked')
+            if old_n != want or cur_n != T:
+                acc.violation('C08:old-value-wrong', 'condition %s: __old__.tank.n is %r and tank.n is %r; the application had set '
+                              'tank.n to %r when %s, and to %r now' % (cid, old_n, cur_n, want,
+                                                                     'the transition started' if owner not in names else
+                                                                     '%s was entered' % owner, T), wit)
+                return
+
+
 def run_case(acc, rnd, tier, case):
     if case % 10 == 9:
         return collision_case(acc, rnd)
+    if case % 10 == 7:
+        return env_case(acc, rnd)
     if case % 10 == 8:
         return empty_context_case(acc, rnd)
     T = TIERS[tier]
